@@ -20,6 +20,10 @@ func checkC12(p *Prog, r *Report) {
 	r.NotDec = []string{"x/nft owner-index maintenance and iterators", "pagination", "identifiers in hand-written genesis files"}
 	r.Trusted = []string{"cosmos-sdk v0.47.12 x/nft keeper"}
 	kp := func(rule, rest string) string { return rule + ":C12:" + rest }
+	// a token's creator, creation time and content survive export/import: the importer consumes every exported field
+	if pimp := p.Func(Rel("x/pnft"), "InitGenesis"); pimp != nil {
+		checkPnftImportReadsAllFields(p, r, kp, pimp)
+	}
 
 	hs := p.ServerHandlers("MsgServer")["x/pnft"]
 	r.Floor("pnft-handlers", len(hs), 7)
